@@ -10,7 +10,7 @@ git -C /repo worktree add --detach "$W" HEAD >/dev/null 2>&1 || { echo "worktree
 mkdir -p "$W/out/X"; cp "$SRC"/patch.diff "$SRC"/demo.py "$W/out/X/" 2>/dev/null; cp "$SRC"/notes.md "$W/out/X/" 2>/dev/null
 cd "$W"
 /venv/bin/python out/X/demo.py > "$W/demo_clean.log" 2>&1; RC_CLEAN=$?
-git apply out/X/patch.diff || { echo "PATCH DOES NOT APPLY"; cd /; git -C /repo worktree remove --force "$W"; exit 3; }
+git apply out/X/patch.diff 2>/dev/null || git apply --3way out/X/patch.diff || { echo "PATCH DOES NOT APPLY"; cd /; git -C /repo worktree remove --force "$W"; exit 3; }
 /venv/bin/python out/X/demo.py > "$W/demo_patched.log" 2>&1; RC_PATCHED=$?
 if [ -z "$SKIP_BASELINE" ]; then BASE=$(/verif/baseline.sh "$W" 2>&1 | tail -2 | tr '\n' ' '); else BASE="skipped"; fi
 echo "demo clean rc=$RC_CLEAN patched rc=$RC_PATCHED ; $BASE"
